@@ -263,7 +263,12 @@ func buildP2Scenario(r *core.R, p p2ScenParams) *p2Scenario {
 		}
 		for i := 0; i < n; i++ {
 			op := scen.RandomOp(rng, st)
-			if p.Kind == "limit" && op.Kind == "delete" {
+			if p.Kind == "limit" {
+				// damage that stays within the four blocks whatever else happens:
+				// the set at the format's limit must be repairable
+				if i > 0 {
+					break
+				}
 				op = scen.Op{Kind: "overwrite", A: 0, Pos: rng.Intn(100000), G: scen.Garbage(rng, 3)}
 			}
 			st.Apply(op)
@@ -279,7 +284,7 @@ func buildP2Scenario(r *core.R, p p2ScenParams) *p2Scenario {
 	vols := env.volumeFiles()
 	sc.volsTotal = len(vols)
 	switch {
-	case volMode == "keep":
+	case volMode == "keep", p.Kind == "limit":
 	case volMode == "keep-0-255-256":
 		// keep only the volumes holding exponents 0 and 255.. (gopar names them
 		// vol00+01 and vol255+03); everything between is lost
